@@ -185,7 +185,7 @@ def whole_run(seed, nphases=3):
   rng = random.Random(seed)
   # every statement of test_state.py is a scheduling point: the snapshot code (as_base_types) and the
   # notification code (_notify) share state without a common lock
-  s = sched.Sched(policy=sched.RandomPolicy(rng, 0.3), max_steps=2000000, trace_files=('openhtf/core/test_state.py',))
+  s = sched.Sched(policy=sched.RandomPolicy(rng, 0.3), max_steps=2000000, trace_files=('openhtf/core/test_state.py', 'openhtf/util/logs.py'))
   box = dict(bad=[], final=[])
 
   def main():
@@ -214,6 +214,12 @@ def whole_run(seed, nphases=3):
         for k, (name, val, dval) in sorted(latest.items()):
           if name == 'ph%d' % i and val != 10 + i:
             probes.append('a watcher looping on snapshot-then-wait is left with a stale view of a measurement')
+        # ... and for a log record
+        api.logger.info('last words of ph%d', i)
+        time.sleep(0.5)
+        for k, msgs in sorted(latest_logs.items()):
+          if 'last words of ph%d' % i not in msgs:
+            probes.append('a watcher looping on snapshot-then-wait is left with a view that lacks the last log record')
         # the same for a dimensioned measurement whose coordinate is overridden (the override also logs a warning)
         api.measurements.ld[0] = 1
         time.sleep(0.5)
@@ -228,6 +234,7 @@ def whole_run(seed, nphases=3):
           htf.PhaseOptions(name='ph%d' % i, requires_state=True)(body))
     test = htf.Test(*[mk(i) for i in range(nphases)])
     latest = {}
+    latest_logs = {}
     done = []
     test.add_output_callbacks(done.append)
 
@@ -247,6 +254,7 @@ def whole_run(seed, nphases=3):
       while True:
         d, ev = st.asdict_with_event()
         seen.append((d['status'], (d['running_phase_state'] or {}).get('name')))
+        latest_logs[k] = [r.get('message') for r in (d.get('test_record') or {}).get('log_records', [])]
         rp = d['running_phase_state']
         if rp:
           ms = rp.get('measurements') or {}
